@@ -31,7 +31,8 @@ EXPLANATION = (
     'symbol creators define, and defaults are emitted after every symbol creator. R6: the '
     'literal check of a default is skipped only for null on a nullable field, and ValueError is '
     'converted. Decides these structural parts; decoding of concrete examples is not decided.'
-    ' R7 (imported from C08-R6): reading an unset defaulted field returns the default only if the attribute is not generated as nullable through an alias.')
+    ' R7 (imported from C08-R6): reading an unset defaulted field returns the default only if the attribute is not generated as nullable through an alias.'
+    ' RD (decision drift, stonelint.conddrift): the tests of the functions this property is anchored in (stonelint.ownership) are compared with reference/conditions.json; a relation, polarity or connective changed over the same operands, or an operand purely added or dropped, is a violation; re-spellings and new or removed tests are not claimed.')
 ASSUMPTIONS = [
     'the parser produces default literals of kinds bool, int, float, str, null and tag references '
     '(p_default_option: primitive | tag_ref)',
@@ -340,6 +341,11 @@ def run(pm, ctx):
     ctx.import_rules(pm, 'C08', {'C08-R6'}, 'C10-R7',
                      'the generated attribute takes nullability from the field type itself, not '
                      'through aliases (shared with C08-R6)')
+
+    from ..conddrift import run_decisions
+    from ..ownership import OWN
+    run_decisions(pm, ctx, 'C10-RD', OWN['C10'])
+
 
 def emission_order(pm):
     """{generator method name: index of the top-level statement of
